@@ -1,0 +1,60 @@
+package ecdsa
+
+import (
+	"errors"
+	"fmt"
+
+	"github.com/fxamacker/cbor/v2"
+)
+
+// UnmarshalCBOR implements cbor.Unmarshaler. The receiver must have been created with
+// EmptyPreSignature. Malformed or invalid data yields an error, never a panic or a
+// PreSignature that fails Validate.
+func (sig *PreSignature) UnmarshalCBOR(data []byte) (err error) {
+	defer func() {
+		if p := recover(); p != nil {
+			err = fmt.Errorf("presignature: malformed data: %v", p)
+		}
+	}()
+	// plain has the fields of PreSignature, but not its methods: the default decoding is used.
+	type plain PreSignature
+	if err := cbor.Unmarshal(data, (*plain)(sig)); err != nil {
+		return err
+	}
+	if err := sig.Validate(); err != nil {
+		return err
+	}
+	if len(sig.RBar.Points) == 0 {
+		return errors.New("presignature: no signers")
+	}
+	return nil
+}
+
+// Validate checks that R is not the identity and that S is not zero.
+func (sig Signature) Validate() error {
+	if sig.R == nil || sig.S == nil {
+		return errors.New("signature: missing fields")
+	}
+	if sig.R.IsIdentity() {
+		return errors.New("signature: R is the identity")
+	}
+	if sig.S.IsZero() {
+		return errors.New("signature: S is zero")
+	}
+	return nil
+}
+
+// UnmarshalCBOR implements cbor.Unmarshaler. The receiver must have been created with
+// EmptySignature. Malformed or invalid data yields an error, never a panic or an invalid Signature.
+func (sig *Signature) UnmarshalCBOR(data []byte) (err error) {
+	defer func() {
+		if p := recover(); p != nil {
+			err = fmt.Errorf("signature: malformed data: %v", p)
+		}
+	}()
+	type plain Signature
+	if err := cbor.Unmarshal(data, (*plain)(sig)); err != nil {
+		return err
+	}
+	return sig.Validate()
+}
